@@ -42,11 +42,14 @@ class Comment(TypedExpression):
             if "\n" in inner:
                 indent_prefix = " " * node.start_point.column
                 lines = inner.split("\n")
-                normalized = [lines[0]]
+                # Text on the line of the opener (or closer) is set off by one
+                # space when rendered: keep the text, not the spacing.
+                normalized = [lines[0].strip()]
                 for line in lines[1:]:
                     if indent_prefix and line.startswith(indent_prefix):
                         line = line[len(indent_prefix) :]
                     normalized.append(line)
+                normalized[-1] = normalized[-1].rstrip()
                 inner_indent = None
                 for line in normalized[1:]:
                     if not line.strip():
@@ -101,7 +104,7 @@ class MultilineComment(Comment):
             if self.text.startswith("\n"):
                 result = " " * indent + opening
             else:
-                result = f"{opening} "
+                result = " " * indent + f"{opening} "
             lines = self.text.split("\n")
             result += lines[0]
             extra_indent = 2 if self.inner_indent is None else self.inner_indent
